@@ -23,23 +23,24 @@ func asEntry(e ipfslog.Entry) *entry.Entry {
 type genFn func(r *rand.Rand, id string, size int, total int) []string
 
 var families = map[string]genFn{
-	"kv":  genKV,
-	"doc": genDoc,
-	"log": genLog,
-	"routes": genRoutes,
-	"status": genStatus,
-	"forge":  genForge,
-	"garbage": genGarbage,
-	"transport": genTransport,
-	"oneonone": genOneOnOne,
-	"multidb": genMultiDB,
-	"cancel": genCancel,
-	"limit": genLimit,
-	"close": genClose,
-	"events": genEvents,
+	"kv":         genKV,
+	"doc":        genDoc,
+	"log":        genLog,
+	"routes":     genRoutes,
+	"reload":     genReload,
+	"status":     genStatus,
+	"forge":      genForge,
+	"garbage":    genGarbage,
+	"transport":  genTransport,
+	"oneonone":   genOneOnOne,
+	"multidb":    genMultiDB,
+	"cancel":     genCancel,
+	"limit":      genLimit,
+	"close":      genClose,
+	"events":     genEvents,
 	"concurrent": genConcurrent,
-	"address": genAddress,
-	"snapshot": genSnapshot,
+	"address":    genAddress,
+	"snapshot":   genSnapshot,
 }
 
 func main() {
